@@ -82,6 +82,13 @@ func main() {
 		fmt.Printf("UNDECIDED property=%s (the analysed tree does not load/type-check)\n", *prop)
 		os.Exit(3)
 	}
+	if d := os.Getenv("FSDBCHECK_DUMP"); d != "" {
+		if fi := p.Func(d); fi != nil {
+			fmt.Print(p.FlatOf(fi).Dump())
+		} else {
+			fmt.Println("no such function", d)
+		}
+	}
 	exit := 0
 	for _, id := range ids {
 		r := NewReport(id, *tier, seed)
